@@ -100,6 +100,43 @@ pub async fn silent_loss_probe(sim: &mut Sim, max_idle: u64) {
     sim.run.fabric.heal_all();
 }
 
+/// A node whose service is saturated for longer than the idle timeout (one request at a time, a
+/// third peer's request holds the slot): a peer whose request waits for capacity hangs up; the
+/// node must report it lost like any other connection that ended.
+pub async fn saturation_probe(sim: &mut Sim, max_idle: u64) {
+    sim.run.fabric.heal_all();
+    sim.run.fabric.set_policy(Policy::default());
+    sim.run.obs(-1, "obs.fault", json!({"what": "healed"}));
+    settle(sim, 300).await;
+    let (a, x, b) = (0usize, 1usize, 2usize);
+    if (0..3).any(|i| sim.nodes[i].net.is_none()) {
+        return;
+    }
+    let _ = sim.connect(x, sim.addr(a), Some(sim.peer_id(a))).await;
+    let _ = sim.connect(b, sim.addr(a), Some(sim.peer_id(a))).await;
+    settle(sim, 50).await;
+    let mut calls = Vec::new();
+    for (from, delay) in [(x, 2 * max_idle + 20_000), (b, 10)] {
+        let nonce = sim.nonce();
+        let net = sim.net(from).clone();
+        let run = sim.run.clone();
+        let to = sim.peer_id(a);
+        calls.push(tokio::spawn(async move {
+            let _ = sim::rpc(&run, &net, from as i64, to,
+                Request::new(Bytes::from_static(b"slow")).with_route("/slow").with_header("delay-ms", delay.to_string()), nonce).await;
+        }));
+        settle(sim, 30).await;
+    }
+    sim.run.obs(-1, "obs.note", json!({"what": "saturation probe: the waiting peer hangs up", "server": a, "peer": b}));
+    sim.disconnect(b, sim.peer_id(a));
+    settle(sim, max_idle + 5_000).await;
+    sim.obs_all_peers();
+    for c in calls {
+        let _ = tokio::time::timeout(std::time::Duration::from_secs(300), c).await;
+    }
+    settle(sim, 100).await;
+}
+
 pub async fn shutdown(sim: &mut Sim, i: usize) {
     if let Some(net) = sim.nodes[i].net.clone() {
         let r = tokio::time::timeout(std::time::Duration::from_secs(120), net.shutdown()).await;
@@ -134,6 +171,11 @@ pub async fn history(mut sim: Sim, o: Opts) -> Result<Value, String> {
     let keys = sim::sorted_keys(o.nodes, &mut sim.rng);
     let mut max_idle = o.idle_ms;
     let all_unset = o.hetero && sim.rng.gen_bool(0.2);
+    // one history in three serves through a service that is not always ready (one request at a time
+    // for the whole node, the rest wait for capacity): a connection's end is noticed and reported
+    // whatever its requests are waiting for
+    let saturable = sim.rng.gen_range(0..3) == 0;
+    sim::SERVER_LIMITS.with(|c| c.set(if saturable { Some((1, 4)) } else { None }));
     for k in keys {
         let mut cfg = node_cfg(k, &o);
         if o.hetero {
@@ -225,14 +267,15 @@ pub async fn history(mut sim: Sim, o: Opts) -> Result<Value, String> {
                 let _ = sim::rpc(&sim.run, &net, a as i64, sim.peer_id(b),
                     Request::new(Bytes::from_static(b"y")).with_route("/any"), nonce).await;
             }
-            48..=49 if alive(&sim, a) => {
+            48..=53 if alive(&sim, a) && (choice <= 49 || saturable) => {
                 // a slow request stays in flight while the history goes on: connections end
                 // (disconnect, replacement, partition, shutdown) under running handlers
                 let nonce = sim.nonce();
                 let net = sim.net(a).clone();
                 let run = sim.run.clone();
                 let to = sim.peer_id(b);
-                let delay = [50u64, 1_500, 6_000][sim.rng.gen_range(0..3)];
+                // (a saturable service may stay saturated for longer than anybody's idle timeout)
+                let delay = [50u64, 1_500, 6_000, 25_000, 40_000][sim.rng.gen_range(0..if saturable { 5 } else { 3 })];
                 pending.push(tokio::spawn(async move {
                     let _ = sim::rpc(&run, &net, a as i64, to,
                         Request::new(Bytes::from_static(b"slow")).with_route("/slow")
@@ -306,6 +349,10 @@ pub async fn history(mut sim: Sim, o: Opts) -> Result<Value, String> {
     if o.faults {
         silent_loss_probe(&mut sim, max_idle).await;
     }
+    if saturable && n >= 3 {
+        saturation_probe(&mut sim, max_idle).await;
+    }
+    sim::SERVER_LIMITS.with(|c| c.set(None));
     finish(&mut sim, max_idle).await;
     Ok(json!({"connects": connects}))
 }
